@@ -2081,6 +2081,11 @@ void XMLReader::handleEOL(XMLCh& curCh, bool inDecl)
             fCurLine++;
             curCh = chLF;
         }
+        else
+        {
+            // Not a line break here: an ordinary character
+            fCurCol++;
+        }
         break;
     default:
         fCurCol++;
